@@ -105,4 +105,49 @@ Proof.
               unfold m in *. cbn [length] in *. rewrite Z.mod_small in Hd by lia. lia.
            ++ rewrite app_nth1 by exact Hj'. apply Hv. exact Hj'.
 Qed.
+
+Theorem pop_spec r q : Inv r q ->
+  match q with
+  | [] => pop r = (r, None)
+  | x :: q' => snd (pop r) = Some x /\ Inv (fst (pop r)) q'
+  end.
+Proof.
+  intros (Hc & Hl & Hq & Hm). unfold pop, is_empty. destruct q as [|x q'].
+  - destruct Hm as [Hh _]. rewrite Hh. reflexivity.
+  - destruct Hm as (Hh & Ht & Hv). destruct (Z.eqb_spec (head r) (-1)); [lia|].
+    pose proof (Hv 0%nat ltac:(cbn [length]; lia)) as H0. cbn [nth] in H0.
+    replace ((head r + Z.of_nat 0) mod cap r) with (head r) in H0 by (rewrite Z.mod_small; lia).
+    set (m := Z.of_nat (length (x :: q'))) in *. assert (Hn : 1 <= m <= cap r) by (unfold m in *; cbn [length] in *; lia).
+    destruct (Z.eqb_spec (head r) (tail r)) as [E|E]; cbn [fst snd].
+    + (* last element: back to the empty encoding *)
+      split; [rewrite H0; reflexivity|].
+      assert (Hq1 : q' = []).
+      { destruct q' as [|y q'']; [reflexivity|]. exfalso. unfold m in *. cbn [length] in *.
+        rewrite <- E in Ht. assert (Hd : (Z.of_nat (S (S (length q''))) - 1) mod cap r = 0).
+        { replace (Z.of_nat (S (S (length q''))) - 1) with ((head r + Z.of_nat (S (S (length q''))) - 1) - head r) by lia.
+          rewrite Zminus_mod, <- Ht. rewrite (Z.mod_small (head r)) by lia. rewrite Z.sub_diag. apply Z.mod_0_l. lia. }
+        rewrite Z.mod_small in Hd by lia. lia. }
+      subst q'. unfold Inv; cbn [vals head tail cap length]. rewrite upd_length. repeat split; auto; lia.
+    + split; [rewrite H0; reflexivity|].
+      destruct q' as [|y q''].
+      * exfalso. unfold m in *. cbn [length] in *. apply E. rewrite Ht. replace (head r + Z.of_nat 1 - 1) with (head r) by lia. rewrite Z.mod_small; lia.
+      * unfold Inv; cbn [vals head tail cap]. rewrite upd_length.
+        assert (Hlen' : Z.of_nat (length (y :: q'')) = m - 1) by (unfold m; cbn [length]; lia).
+        repeat split; auto; try lia.
+        -- apply Z.mod_pos_bound; lia.
+        -- apply Z.mod_pos_bound; lia.
+        -- rewrite Ht. replace ((head r + 1) mod cap r + Z.of_nat (length (y :: q'')) - 1) with ((head r + 1) mod cap r + (Z.of_nat (length (y :: q'')) - 1)) by lia.
+           rewrite Zplus_mod_idemp_l. f_equal. lia.
+        -- intros j Hj. rewrite Zplus_mod_idemp_l.
+           pose proof (Z.mod_pos_bound (head r + 1 + Z.of_nat j) (cap r) Hc) as B.
+           rewrite nth_upd by lia.
+           destruct (Nat.eqb_spec (Z.to_nat ((head r + 1 + Z.of_nat j) mod cap r)) (Z.to_nat (head r))) as [E'|_].
+           ++ exfalso. assert (E2 : (head r + 1 + Z.of_nat j) mod cap r = head r) by lia.
+              assert (Hd : (1 + Z.of_nat j) mod cap r = 0).
+              { replace (1 + Z.of_nat j) with ((head r + 1 + Z.of_nat j) - head r) by lia.
+                rewrite Zminus_mod, E2. rewrite (Z.mod_small (head r)) by lia. rewrite Z.sub_diag. apply Z.mod_0_l. lia. }
+              cbn [length] in *. rewrite Z.mod_small in Hd by lia. lia.
+           ++ specialize (Hv (S j) ltac:(cbn [length] in *; lia)). change (nth (S j) (x :: y :: q'') 0) with (nth j (y :: q'') 0) in Hv. rewrite <- Hv. f_equal. f_equal. f_equal. lia.
+Qed.
 Print Assumptions push_spec.
+Print Assumptions pop_spec.
